@@ -30,6 +30,9 @@ def requests(tier: str, slot: str) -> List[Tuple[str, int, int, bytes]]:
     ids = [0, 10, 100, 101, -1] if tier == "quick" else [0, 1, 10, 99, 100, 101, 200, -1]
     names = [b"", b"x"] if tier == "quick" else [b"", b"x", b"y"]
     out = []
+    if tier == "three":
+        # three slots, small alphabet: shared ids x allow_multiple x shared names (order-dependent identity checks)
+        return [("v2", 10, am, nm) for am in (0, 1) for nm in (b"", b"x")] + [("v2", 11, 1, b"x"), ("v2", 0, 0, b"x"), ("v1", 10, 0, b"")]
     if slot == "Z" and tier == "quick":
         return [("v2", 10, 1, b"x"), ("v2", 0, 0, b""), ("v1", 10, 0, b"")]
     for i in ids:
@@ -312,6 +315,7 @@ def run(tier: str) -> int:
     totals: Dict[str, int] = {}
     per_cfg = {}
     cfgs = [builder(tier=tier, slots="XY", max_dyn=3), builder(tier=tier, slots="XYZ" if tier == "thorough" else "XZ", tc=True, flip=True, max_dyn=2)]
+    cfgs.append(builder(tier="three", slots="XYZ", max_dyn=2))
     if tier == "thorough":
         cfgs.append(builder(tier="quick", slots="XYZ", max_dyn=3))
     for b in cfgs:
